@@ -24,24 +24,47 @@ import (
 
 const boardRule = "__________________________________________________________"
 
-var boardPostRe = regexp.MustCompile(`^From ([^\r]*) \(([A-Z][a-z]{2}\d\d \d\d:\d\d)\):\r\r`)
+// c19format: how a post looks on the board.  The default is the protocol's format; the server's configuration can
+// replace the date layout and the whole template (a format string with poster, date and text).
+type c19format struct {
+	head *regexp.Regexp // matches the start of a post up to the text, capturing the poster's name
+	tail string         // what follows the text
+}
+
+var c19default = c19format{head: regexp.MustCompile(`^From ([^\r]*) \(([A-Z][a-z]{2}\d\d \d\d:\d\d)\):\r\r`), tail: "\r\r" + boardRule + "\r"}
+
+// the configured variants used by TestC19: a custom date layout, a custom template, both
+const (
+	c19customDate     = "2006-01-02 15:04"
+	c19customTemplate = "** %s wrote on %s **\r%s\r==end of post=="
+)
+
+var c19formats = map[string]c19format{
+	"default":   c19default,
+	"date":      {head: regexp.MustCompile(`^From ([^\r]*) \((\d{4}-\d\d-\d\d \d\d:\d\d)\):\r\r`), tail: "\r\r" + boardRule + "\r"},
+	"template":  {head: regexp.MustCompile(`^\*\* ([^\r]*) wrote on ([A-Z][a-z]{2}\d\d \d\d:\d\d) \*\*\r`), tail: "\r==end of post==\r"},
+	"date+tmpl": {head: regexp.MustCompile(`^\*\* ([^\r]*) wrote on (\d{4}-\d\d-\d\d \d\d:\d\d) \*\*\r`), tail: "\r==end of post==\r"},
+}
+
+// c19cur is the format of the case being run (cases run one after another)
+var c19cur = c19default
 
 // expectedPost renders a post the way the protocol's board format prescribes, with the
 // date left as a pattern.
 func postMatches(block []byte, name string, text []byte) bool {
-	m := boardPostRe.FindSubmatch(block)
+	m := c19cur.head.FindSubmatch(block)
 	if m == nil || string(m[1]) != name {
 		return false
 	}
-	want := append(bytes.ReplaceAll(text, []byte("\n"), []byte("\r")), []byte("\r\r"+boardRule+"\r")...)
+	want := append(bytes.ReplaceAll(text, []byte("\n"), []byte("\r")), []byte(c19cur.tail)...)
 	return bytes.Equal(block[len(m[0]):], want)
 }
 
 // splitBoard cuts the board into leading post blocks and the remaining (initial) text.
 func splitBoard(b []byte) (posts [][]byte, rest []byte) {
-	sep := []byte("\r\r" + boardRule + "\r")
+	sep := []byte(c19cur.tail)
 	for {
-		if !boardPostRe.Match(b) {
+		if !c19cur.head.Match(b) {
 			return posts, b
 		}
 		i := bytes.Index(b, sep)
@@ -153,7 +176,18 @@ func c19prop(ev *evid.Rec) func(rt *rapid.T) {
 		staleTmp := rapid.IntRange(0, 3).Draw(rt, "staleTmp") == 0
 		editAgreement := rapid.IntRange(0, 2).Draw(rt, "editAgreement") == 0
 		overlap := false
-		inWorld(rt, hlsim.Options{Agreement: string(agreement), Board: string(initial), Accounts: []hlsim.AccountSpec{acct("admin", "Admin", "adminpw", func() hlref.Access { a := hlref.AllAccess().Defined(); a.Clear(hlref.PrivNoAgreement); return a }())}}, func(rt *rapid.T, w *hlsim.World) {
+		// the operator's configuration of the post format: default, custom date layout, custom template, both
+		variant := rapid.SampledFrom([]string{"default", "default", "date", "template", "date+tmpl"}).Draw(rt, "postFormat")
+		c19cur = c19formats[variant]
+		defer func() { c19cur = c19default }()
+		opt := hlsim.Options{Agreement: string(agreement), Board: string(initial), Accounts: []hlsim.AccountSpec{acct("admin", "Admin", "adminpw", func() hlref.Access { a := hlref.AllAccess().Defined(); a.Clear(hlref.PrivNoAgreement); return a }())}}
+		if strings.Contains(variant, "date") {
+			opt.NewsDateFormat = c19customDate
+		}
+		if strings.Contains(variant, "tmpl") || variant == "template" {
+			opt.NewsDelimiter = c19customTemplate
+		}
+		inWorld(rt, opt, func(rt *rapid.T, w *hlsim.World) {
 			if staleTmp {
 				// what a server that died between writing and renaming leaves behind: it must not leak into later posts
 				must(os.WriteFile(filepath.Join(w.Cfg, "MessageBoard.txt.tmp"), bytes.Repeat([]byte("LEFTOVER OF A CRASHED UPDATE\r"), 400), 0o644))
@@ -306,7 +340,7 @@ func c19prop(ev *evid.Rec) func(rt *rapid.T) {
 				overlap = true
 			}
 		})
-		ev.Case(evid.Hash(boardSize, agreeSize, fmt.Sprint(rounds), nlogin, fmt.Sprint(len(texts))), overlap, fmt.Sprintf("board:%d", boardSize), fmt.Sprintf("agreement:%d", agreeSize))
+		ev.Case(evid.Hash(boardSize, agreeSize, fmt.Sprint(rounds), nlogin, fmt.Sprint(len(texts)), variant, editAgreement, staleTmp), overlap, fmt.Sprintf("board:%d", boardSize), fmt.Sprintf("agreement:%d", agreeSize), "post-format:"+variant)
 		if overlap && ev.WantSample() {
 			ev.Sample(map[string]any{"engine": "bubble", "board_bytes": boardSize, "agreement_bytes": agreeSize, "rounds(readers/posters by client)": fmt.Sprint(rounds), "simultaneous_logins": nlogin})
 		}
